@@ -17,7 +17,7 @@ const tRF = "common/replayfilter.ReplayFilter"
 
 func init() {
 	register(&PropInfo{
-		ID: "C11", Level: "other", MinObls: 10,
+		ID: "C11", Level: "other", MinObls: 8,
 		Explanation: "Histories, TTL arithmetic over time and linearizability are not decidable statically; decided are structural necessary conditions: R1 lock discipline (E5): every access to the map and the list happens under the filter's mutex — in a function that locks once with a deferred unlock and never unlocks in between, or in an unexported helper called only from such a region, or in the constructor — so lookup and insert of TestAndSet form ONE critical section; " +
 			"R2 compaction (with the caller's timestamp) dominates the lookup; R3 bijection upkeep (E6): the only mutations of map and list in the package are the control-equivalent pairs insert/PushBack, delete/Remove of the same entry, and the wholesale replacement of both; R4 the digest key is 16 CSPRNG bytes written only by the constructor; " +
 			"R5 eviction conditions: an entry is removed only from the front, only when the filter is full (Len() >= 102400, re-evaluated on every iteration), TTL is disabled, or now-firstSeen >= ttl; a negative age resets both structures.",
